@@ -87,3 +87,6 @@ func VerifInstallRepoConstructor() {
 	}
 	verifrt.Override(name, hook)
 }
+
+// VerifSetLink: path is a symbolic link that currently points to target (publishers re-point it to each new list)
+func VerifSetLink(path, target string) { links[path] = target }
